@@ -3,9 +3,132 @@ from contracts import parsing as _p
 from pyvc import sym
 from pyvc.sym import eq
 
+import datetime as _dt
+
+import pendulum
+from pyvc import spec
+from pyvc.contract import contract
+from pyvc.engine import Obj
+from pyvc.sym import And, Not
+
 ID = "C07"
-CONTRACTS = ["pendulum.parsing.iso8601.parse_iso8601"]
+CONTRACTS = ["pendulum.parsing.iso8601.parse_iso8601", "props.C07.c07_parse", "props.C07.c07_parse_exact"]
 LEMMAS = []
+
+
+# ---------------------------------------------------------------------------------- the public entry point
+# pendulum.parse(text) / pendulum.parse(text, exact=True): the whole chain parser.parse -> parser._parse ->
+# parsing.parse -> _parse -> _normalize -> parse_iso8601 and the wrapping into DateTime / Date / Time is executed
+# from its source per string shape (same shapes, same denotation function as the parse_iso8601 contract).
+def c07_parse(text):
+    return pendulum.parse(text)
+
+
+def c07_parse_exact(text):
+    return pendulum.parse(text, exact=True)
+
+
+_INLINE = ["pendulum.parser.parse"]
+
+
+def _is_utc(tz):
+    return isinstance(tz, Obj) and tz.f.get("key") == "UTC"
+
+
+def _zone_clause(result, tzv):
+    """the zone of an aware result: UTC when the string has no offset or 'Z', the denoted fixed offset otherwise"""
+    t = result.f.get("tzinfo")
+    if t is None:
+        return False
+    if tzv is None or tzv == ("Z",):
+        return _is_utc(t)
+    return sym.eq(t.f["_offset"], tzv[1]) if "_offset" in t.f else False
+
+
+def _wrap_case(sh, exact):
+    base = _p._shape_case(sh)
+
+    # week dates combined with a numeric offset: the date clause goes through the ISO-week spec AND the fixed-offset
+    # construction; 25-90 s per obligation under load, so these eight cases are discharged in the thorough tier only
+    heavy = sh[0] in ("Y-Ww", "YWw", "Y-Ww-D", "YWwD") and sh[4] not in ("", "Z", None)
+
+    class case:
+        options = {"transparent": _INLINE, **({"tier": "thorough"} if heavy else {})}
+
+        def applies(text):
+            return False
+
+        def args(F):
+            a, cons = base.args(F)
+            case._fields = base._fields
+            return a, cons
+
+        raises = [(ValueError, "impossible_date_time_or_offset", lambda text: Not(_p.denoted(case._fields)[0]))]
+
+        def result(F, text):
+            raise NotImplementedError
+
+        def ensures(result, text):
+            # Clauses are stated on positions: the proleptic ordinal of the result's date and its time of day in microseconds.
+            # With the result's fields valid (a clause of its own) these determine year/month/day and hour/minute/second/microsecond
+            # uniquely (mixed-radix / calendar uniqueness), so this IS "the fields it denotes" - and it is the form in which the
+            # constructors' contracts (C02: wall clock of the result == wall clock asked for) deliver the value.
+            valid, date, time, tzv = _p.denoted(case._fields)
+            ok = lambda c: isinstance(result, Obj) and result.cls is c
+            has_t = lambda: all(k in result.f for k in ("hour", "minute", "second", "microsecond"))
+            vd = lambda: spec.valid_date(result.year, result.month, result.day)
+            vt = lambda: spec.valid_time(result.hour, result.minute, result.second, result.microsecond)
+            d_ord = (lambda: spec.ordinal(date[1], date[2], date[3]) if date[0] == "ymd" else date[1])
+            dm = lambda: And(vd(), eq(spec.date_ord(result), d_ord()))
+            tm = lambda: And(vt(), eq(spec.tod_us(result.hour, result.minute, result.second, result.microsecond), spec.tod_us(*time)))
+            if date is not None and time is None:
+                if exact:
+                    if not ok(pendulum.Date):
+                        return [("narrowest_type_is_Date", False)]
+                    return [("narrowest_type_is_Date", True), ("the_date_it_denotes", dm())]
+                if not ok(pendulum.DateTime):
+                    return [("returns_a_DateTime", False)]
+                return [("returns_a_DateTime", True), ("the_date_it_denotes", dm()),
+                        ("midnight", And(vt(), eq(spec.tod_us(result.hour, result.minute, result.second, result.microsecond), 0))),
+                        ("in_UTC", _zone_clause(result, None))]
+            if date is None:
+                # time of day only.  exact=True: a Time with the denoted fields (the offset of a time-only string is dropped by
+                # parser.py: known finding C07-time-offset-dropped, matched at the bounded level - no clause here for shapes with an offset);
+                # exact=False: the time of day on the current date in UTC or at the denoted offset
+                if exact:
+                    if not ok(pendulum.Time):
+                        return [("narrowest_type_is_Time", False)]
+                    out = [("narrowest_type_is_Time", True), ("the_time_it_denotes", tm())]
+                    if tzv is None:
+                        out.append(("naive_time", result.f.get("tzinfo") is None))
+                    return out
+                if not ok(pendulum.DateTime):
+                    return [("returns_a_DateTime", False)]
+                return [("returns_a_DateTime", True), ("the_time_it_denotes", tm()), ("the_zone_it_denotes", _zone_clause(result, tzv))]
+            if not ok(pendulum.DateTime):
+                return [("returns_a_DateTime", False)]
+            return [("returns_a_DateTime", True), ("the_date_it_denotes", dm()), ("the_time_it_denotes", tm()),
+                    ("the_zone_it_denotes", _zone_clause(result, tzv))]
+
+    case.__name__ = _p.shape_name(*sh)
+    return case
+
+
+def _wrap_cases(exact):
+    import os
+
+    tier = os.environ.get("VERIF_TIER", "quick")
+    return {_p.shape_name(*sh): _wrap_case(sh, exact) for sh in _p.shapes("quick")}
+
+
+@contract("props.C07.c07_parse", props=["C07"])
+class c07_parse_lemma:
+    cases = _wrap_cases(False)
+
+
+@contract("props.C07.c07_parse_exact", props=["C07"])
+class c07_parse_exact_lemma:
+    cases = _wrap_cases(True)
 
 
 def _canary_case():
@@ -36,7 +159,8 @@ ASSUMPTIONS = [
     "A-RE: the real compiled regex ISO8601_DT is executed by CPython's re on two representatives of each shape; its group spans depend only on the shape because every class/literal of the pattern treats the ten digits alike (checked mechanically on the parsed pattern on every run)",
     "string shape: proofs are per shape (which separators/designators are present, how many digits each run has); digits are symbolic. Quick tier: a covering family of 107 shapes; thorough tier: the full product of date forms x separators x time structures x offset forms with eight fraction variants (about 3,400 shapes)",
     "stdlib contracts assumed: int() of a digit string, str slicing/split/startswith/format padding, datetime.date/time/datetime constructors (ValueError exactly outside their documented ranges), date + timedelta, FixedTimezone.__init__",
-    "pendulum.parse()/parser.py wrapping (DateTime/Date/Time construction, tz option, exact) and the fallback chain are checked bounded end to end, not proved",
+    "pendulum.parse(text) and pendulum.parse(text, exact=True) are proved per shape on the 107 covering shapes (harness lemmas c07_parse / c07_parse_exact: parser.parse, parser._parse, parsing.parse, _parse, _normalize, parse_iso8601 executed from their source; DateTime/Date/Time construction through the contracts of pendulum.datetime/date/time proved under C02); the tz= option, now=, the thorough-tier shape product and the fallback chain for other text are checked bounded only",
+    "time-only strings with an offset and exact=True: parser.py drops the offset (known finding C07-time-offset-dropped, matched at the bounded level); the wrapper lemma states no zone clause for those shapes",
     "Rust parser (rust/src/parsing.rs): never proved; rebuilt from the working tree on every run and compared with the constructive oracle (bounded)",
 ]
 EXPLANATION = ("parse_iso8601 (pure-Python backend) is executed symbolically from its source once per string shape with symbolic digits: it raises a ValueError exactly when the "
@@ -51,8 +175,8 @@ def bounded(ctx):
 
 
 MANIFEST_ENTRY = {
-    "text": "For every well-formed string shape (calendar / ordinal / week date, basic or extended, reduced forms, T or space, five time structures, fraction of 1..9 digits after '.' or ',', Z or +-hh[[:]mm]) and ALL digit values, the pure-Python parse_iso8601 is proved to raise a ValueError exactly when the digits denote an impossible date, ordinal, week, weekday, time or offset and otherwise to return exactly the denoted date, time, microsecond (truncated) and offset. The compiled parser, pendulum.parse() wrapping, exact/tz options and the inversion of isoformat/str/to_iso8601_string/to_rfc3339_string/atom/w3c are checked bounded against a constructive oracle on both backends.",
-    "note": "Trusted: pyvc, z3/cvc5, A-RE (regex run on shape representatives; digit-invariance of the pattern checked mechanically). Proof is per shape: quick tier 107 covering shapes, thorough tier the full group product (about 3,400 shapes). Three genuine defects of the Python parser found by refuted obligations and fixed (week 00 / weekday 0 accepted; bare hhmmss with hour < 10; week dates before year 1000). Rust defects (last day of month in ordinal/week dates, 'Thh:mm:ss', bare hh/hhmmss, week 00) are bounded known findings; Rust is never proved.",
+    "text": "For every well-formed string shape (calendar / ordinal / week date, basic or extended, reduced forms, T or space, five time structures, fraction of 1..9 digits after '.' or ',', Z or +-hh[[:]mm]) and ALL digit values, the pure-Python parse_iso8601 is proved to raise a ValueError exactly when the digits denote an impossible date, ordinal, week, weekday, time or offset and otherwise to return exactly the denoted date, time, microsecond (truncated) and offset. The public entry point pendulum.parse(text) / parse(text, exact=True) is proved on the same covering shapes to return the DateTime (UTC, or the denoted fixed offset), Date or Time with exactly the denoted ordinal, time of day and zone, the narrowest type with exact=True, and a ValueError exactly for impossible values. The compiled parser, the tz option and the inversion of isoformat/str/to_iso8601_string/to_rfc3339_string/atom/w3c are checked bounded against a constructive oracle on both backends.",
+    "note": "Trusted: pyvc, z3/cvc5, A-RE (regex run on shape representatives; digit-invariance of the pattern checked mechanically). Proof is per shape: quick tier 107 covering shapes, thorough tier the full group product (about 3,400 shapes). Genuine defects of the Python parser found by refuted obligations and fixed (week 00 / weekday 0 accepted; bare hhmmss with hour < 10; week dates before year 1000; offsets of 24 h or more; the offset of a time-only string dropped by parse()). Rust defects (last day of month in ordinal/week dates, 'Thh:mm:ss', bare hh/hhmmss, week 00) are bounded known findings; Rust is never proved.",
     "technique": "contract-based deductive verification per string shape (symbolic execution of the real parser with symbolic digits, z3/cvc5); bounded constructive-oracle sweeps for the Rust parser and the public parse() entry point",
     "design_ref": "DESIGN.md section 8 (C07), 12",
 }
